@@ -242,6 +242,38 @@ def adversarial_hint_sections(p):
     return out
 
 
+def constant_field_keys(s, sk):
+    """(tag, key bytes, accepted?): private keys in which every s1 / s2 field holds the same code v, for every v of the field width,
+    and every t0 field the same 13-bit code (both ends, the middle, bit patterns) - structurally extreme, cheap, exhaustive in v"""
+    p = R.PARAMS[s]
+    eta, k, l = p['eta'], p['k'], p['l']
+    bl = R.bitlen(2 * eta)
+    n12 = (k + l) * 256
+    def pack(codes, width):
+        acc = 0
+        for i, c in enumerate(codes):
+            acc |= c << (i * width)
+        return acc.to_bytes((len(codes) * width + 7) // 8, 'little')
+    out = []
+    for v in range(1 << bl):
+        key = bytes(sk[:128]) + pack([v] * n12, bl) + bytes(sk[128 + n12 * bl // 8:])
+        out.append((f's1, s2: every field = {v}', key, v <= 2 * eta))
+    for c in (0, 1, 0x0FFF, 0x1000, 0x1FFE, 0x1FFF, 0x1555, 0x0AAA):
+        key = bytes(sk[:128 + n12 * bl // 8]) + pack([c] * (k * 256), 13)
+        out.append((f't0: every field = {c:#06x}', key, True))
+    assert all(len(kk) == len(sk) for _, kk, _ in out)
+    return out
+
+
+def ref_derive(p, skb):
+    """pkEncode(rho, Power2Round(A s1 + s2 mod q).t1) from private-key bytes, with the reference"""
+    rho, K, tr, s1, s2, t0 = R.sk_decode(p, skb)
+    A = R.expand_a(p, rho)
+    t = R.vadd([R.intt(x) for x in R.matvec(A, [R.ntt(x) for x in s1])], s2)
+    t1 = [[R.power2round(cf % Q)[0] for cf in poly] for poly in t]
+    return R.pk_encode(p, rho, t1)
+
+
 def whole_poly_bad_keys(s, sk):
     """(tag, key bytes): private keys in which EVERY field of one s1 / s2 polynomial is out of range (256 bad fields: a tally kept in a
     byte wraps to zero), and the all-0xFF key"""
